@@ -22,6 +22,7 @@ package snapstate_test
 import (
 	"encoding/json"
 	"fmt"
+	"os"
 	"sort"
 	"strings"
 	"testing"
@@ -474,6 +475,7 @@ type c10Built struct {
 	w        *world
 	applied  []string
 	rejected int
+	reasons  []string
 }
 
 func c10Build(c *check.C, cs c10Case) (*c10Built, error) {
@@ -502,6 +504,7 @@ func c10Build(c *check.C, cs c10Case) (*c10Built, error) {
 		}
 		if err != nil {
 			b.rejected++
+			b.reasons = append(b.reasons, fmt.Sprintf("%s: %v", h, err))
 			continue
 		}
 		b.applied = append(b.applied, rr.Op)
@@ -557,6 +560,9 @@ func c10Run(c *check.C, cs c10Case) (verifkit.Outcome, error) {
 
 	// resolve the final request once: every attempt issues the same concrete request
 	chg, req, err := c10Apply(w, cs.Final, true)
+	if os.Getenv("VERIF_DEBUG") != "" {
+		fmt.Printf("DEBUG history refused: %v\nDEBUG final %s: %v\n", b.reasons, cs.Final, err)
+	}
 	if err != nil {
 		o.Skip = true
 		return o, nil
@@ -581,7 +587,7 @@ func c10Run(c *check.C, cs c10Case) (verifkit.Outcome, error) {
 		}
 		w = nb.w
 		o.Extra["world_rebuilds"]++
-		if now := w.view(cs.Snap); now.String() != first.String() {
+		if now := w.view(cs.Snap); c10Timeless(now) != c10Timeless(first) {
 			panic(fmt.Sprintf("HARNESS: rebuilding the history is not deterministic:\n first %s\n now   %s", first, now))
 		}
 		return nil
@@ -707,6 +713,13 @@ func c10Run(c *check.C, cs c10Case) (verifkit.Outcome, error) {
 	}
 	o.Desc = fmt.Sprintf("%s; history %v (%d refused); %s; %d task failure points; before: %s", cs.Snap, b.applied, b.rejected, req, n, first)
 	return o, nil
+}
+
+// c10Timeless: the snapshot without the absolute clock readings (the mocked clock
+// advances once per reading and the number of readings depends on scheduling).
+func c10Timeless(v worldView) string {
+	v.LastRefresh, v.Inhibited = "", ""
+	return v.String()
 }
 
 func c10TaskKind(a *c10Attempt, k int) string {
